@@ -195,7 +195,7 @@ func dumpFn(p *core.Prog, nr *cfgx.NoRet, fn *ssa.Function) {
 			case ssa.CallInstruction:
 				fmt.Printf("  %s %T %s  := %s(%s)   @%s\n", live, ins, valName(ins), cfgx.CalleeName(x), argStr(x), p.Pos(ins.Pos()))
 			case *ssa.Store:
-				fmt.Printf("  %s store %s = %s   @%s\n", live, cfgx.Expr(x.Addr), cfgx.Expr(x.Val), p.Pos(ins.Pos()))
+				fmt.Printf("  %s store %s = %s   @%s\n", live, cfgx.AddrExpr(x.Addr), cfgx.Expr(x.Val), p.Pos(ins.Pos()))
 			case *ssa.If:
 				fmt.Printf("  %s if %s -> %d else %d\n", live, cfgx.Expr(x.Cond), b.Succs[0].Index, b.Succs[1].Index)
 			case *ssa.Return:
